@@ -26,6 +26,24 @@ CONFIGS = [{'connect_retry': 60, 'hold': 180, 'idle_hold': 30}, {'connect_retry'
            {'connect_retry': 30, 'hold': 180, 'idle_hold': 30}]
 
 
+def pick13(enabled, choice):
+    """prefix events biased towards progress so that every session state is a frequent place for the stop"""
+    weighted = []
+    for ev in enabled:
+        k = ev[0]
+        w = 1
+        if k == 'ok' or k == 'ka' or (k == 'open' and ev[2] == 'valid'):
+            w = 6
+        elif k in ('tick', 'io'):
+            w = 3
+        elif k in ('start',):
+            w = 2
+        elif k == 'stop':
+            w = 1
+        weighted += [ev] * w
+    return weighted[choice % len(weighted)]
+
+
 def cont_enabled(d):
     ev = []
     r = d.sim.reactor
@@ -51,8 +69,11 @@ def run_case(case, explicit=False):
             d.apply(list(ev))
     else:
         d.apply(['boot'])
+        for ev in {'none': [], 'opensent': [['ok', 0]], 'openconfirm': [['ok', 0], ['open', 0, 'valid', 90]],
+                   'established': [['ok', 0], ['open', 0, 'valid', 90], ['ka', 0]]}[case.get('warm', 'none')]:
+            d.apply(ev)
         for ch in case['prefix_choices']:
-            ev = pick12(d.enabled(), ch)
+            ev = pick13(d.enabled(), ch)
             d.apply(ev)
     prefix = list(d.history)
     d.failures = []          # invariants of the prefix are C12's business
@@ -167,7 +188,8 @@ def run_case(case, explicit=False):
                 out.append(('start-while-established:effect', 'manual-start in ESTABLISHED caused %r, state %s' % (tr, sim.state)))
             if not body or body.get('status') is not False:
                 out.append(('start-while-established:reply', 'manual-start in ESTABLISHED answered %r' % (body,)))
-    return d, out, {'cfg': cfg, 'prefix': prefix, 'cont': cont, 'nontrivial': nontrivial}
+    return d, out, {'cfg': cfg, 'prefix': prefix, 'cont': cont, 'nontrivial': nontrivial, 'stopped_in': state_before,
+                    'pending_attempt': pend}
 
 
 def _mtype(b):
@@ -175,7 +197,7 @@ def _mtype(b):
 
 
 def shards(tier):
-    n = 150 if tier == 'quick' else 2500
+    n = 400 if tier == 'quick' else 4000
     return [{'name': 'stop-%d' % i, 'kind': 'hyp', 'examples': n, 'hypothesis': True} for i in range(8 if tier == 'quick' else 16)]
 
 
@@ -187,14 +209,14 @@ def run_shard(spec, seed, col, tier):
                                                       'stopped-in:' + _stop_state(info)])
         for sig, detail in res:
             col.fail(sig, explicit, detail)
-    strat = st.fixed_dictionaries({'cfg': st.sampled_from(CONFIGS),
-                                   'prefix_choices': st.lists(st.integers(0, 999), min_size=0, max_size=14),
+    strat = st.fixed_dictionaries({'cfg': st.sampled_from(CONFIGS), 'warm': st.sampled_from(['none', 'none', 'opensent', 'openconfirm', 'established', 'established']),
+                                   'prefix_choices': st.lists(st.integers(0, 999), min_size=0, max_size=16),
                                    'cont_choices': st.lists(st.integers(0, 999), min_size=0, max_size=6)})
     hyp_run(col, strat, body, seed, spec['examples'])
 
 
 def _stop_state(info):
-    return 'len%d' % min(len(info['prefix']) // 4 * 4, 12)
+    return info['stopped_in'] + ('+attempt' if info['pending_attempt'] else '')
 
 
 def replay(case):
